@@ -32,8 +32,8 @@ def c03(ctx, env):
 
 
 def c04(ctx, env):
-    env.replay_gen(ctx, {"P8", "P9", "R-BSEARCH", "TV", "TV-CTX"})
-    env.witnesses(ctx, ["rctx", "modules", "mix"], {"TV", "TV-CTX", "COMPILE", "P8", "P9", "R-BSEARCH"}, FLOORS)
+    env.replay_gen(ctx, {"P5", "P8", "P9", "R-BSEARCH", "TV", "TV-CTX"})
+    env.witnesses(ctx, ["rctx", "modules", "mix"], {"TV", "TV-CTX", "COMPILE", "P5", "P8", "P9", "R-BSEARCH"}, FLOORS)
 
 
 def c05(ctx, env):
@@ -57,8 +57,8 @@ def c07(ctx, env):
 def c08(ctx, env):
     env.src(ctx, ["R-OFFSET", "R-SHIFT"])
     env.runtime(ctx, {"R-SUM", "R-WHO"})
-    env.replay_gen(ctx, {"P6", "P7", "P9", "R-WHO"})
-    env.witnesses(ctx, ["rulesets"], {"COMPILE", "P6", "P7", "P9", "R-WHO"}, FLOORS)
+    env.replay_gen(ctx, {"P3", "P6", "P7", "P9", "R-WHO"})
+    env.witnesses(ctx, ["rulesets", "eoi"], {"COMPILE", "P3", "P6", "P7", "P9", "R-WHO"}, FLOORS)
 
 
 def c09(ctx, env):
@@ -212,7 +212,9 @@ PROPS = {
                        "acceptor of 'some prefix of the rest, end-of-input visible, is in L(ctx)'; "
                        "the main LTS agrees with the reference for every assignment of context "
                        "outcomes (a failed context = candidate absent); P8: contexts run on a clone "
-                       "of the iterator and take it by value, so nothing is consumed.",
+                       "of the iterator and take it by value, so nothing is consumed; P5: every action, "
+                       "also one reached through a context chain, runs with the saved match cleared, so "
+                       "a context that fails in the next lexeme cannot rewind to a stale match.",
         "trusted_base": ["lexlint/refsem.py"],
     },
     "C11": {
@@ -350,7 +352,8 @@ PROPS = {
         "explanation": "P6: on every path returning InvalidToken, __state = 0 and __initial_state = "
                        "0, the current match is empty, the iterator is not rewound, no action runs "
                        "and the user state is untouched; R-SUM: backtrack's nothing-saved path "
-                       "resets both; R-WHO: __initial_state is otherwise written only by switch.",
+                       "resets both; R-WHO: __initial_state is otherwise written only by switch; P3: a "
+                       "failure at the end of the input is reported with __done set, so nothing follows it.",
         "trusted_base": RUNTIME_TB,
     },
     "C09": {
